@@ -298,6 +298,7 @@ static rc::Gen<KnotC> gen_knots(bool exact_only, int max_extra) {
 
 int main(int argc, char **argv) {
   vf::add_sub<KnotC>("exact", 1200, gen_knots(true, 8), check_gen);
+  vf::add_sub<KnotC>("exact-long", 120, gen_knots(true, 30), check_gen);  // long knot vectors (up to p+31 knots)
   vf::add_sub<KnotC>("float-types", 600, gen_knots(false, 8), check_gen);
   int rc = vf::main_impl(argc, argv, "C01");
   fprintf(stderr, "max coefficient error log2(eps units): float %.2f double %.2f long double %.2f\n", ratio_f(), ratio_d(), ratio_ld());
